@@ -81,7 +81,7 @@ func (c *checker) c06Evaluate(id, class, injName, input string, res *gobuild.Res
 		}
 	case "rejected-at-generation":
 		switch {
-		case known == "D11" || known == "D21":
+		case known == "D21":
 			c.known(known, injName+": valid program rejected: "+summarize(strings.TrimSpace(res.GenOut), 300))
 		case known != "":
 			c.rep.Hist("known-finding-probe", known+": rejected at generation time")
@@ -157,7 +157,7 @@ func runC06(c *checker) {
 		}
 		c.c06Evaluate(fmt.Sprintf("seed=%d opts=%s", cs.seed, cs.opts), cs.inj.Class, cs.inj.Name, c.c06Input(cs), cs.res)
 	}
-	c.rep.Rule = "valid random multi-file programs (nested directories, every annotation) + exactly one collision-seeking injection each, × CLI option sets: class A (file named like an imported std/runtime package; fields, arguments, types, constants, functions named like Go keywords, predeclared identifiers, template-local variables, initialisms/SCREAMING_CASE; enum items named like generated methods; shared labels) must be accepted and build+vet; class B (identifiers equal after Go-casing, enum item vs type, constant vs type, fields named like generated methods/accessors, user types named like primitives, invalid/duplicate go.name, duplicate labels, duplicate exception in throws, fields/arguments named ErrorName / MarshalLogObject / MethodName / EnvelopeType, clashing argument names) may be rejected, but if accepted must build+vet; class K = probes of the known findings D9 D11 D12 D15 D21 D24 (reported as known, never as disagreements); the shapes of the repaired findings D13 D14 D23 D26 D27 are ordinary class B (D14: class A) injections and corpus entries; non-trivial = every program; distinct by (seed, options)"
+	c.rep.Rule = "valid random multi-file programs (nested directories, every annotation) + exactly one collision-seeking injection each, × CLI option sets: class A (file named like an imported std/runtime package; fields, arguments, types, constants, functions named like Go keywords, predeclared identifiers, template-local variables, initialisms/SCREAMING_CASE; enum items named like generated methods; shared labels) must be accepted and build+vet; class B (identifiers equal after Go-casing, enum item vs type, constant vs type, fields named like generated methods/accessors, user types named like primitives, invalid/duplicate go.name, duplicate labels, duplicate exception in throws, fields/arguments named ErrorName / MarshalLogObject / MethodName / EnvelopeType, clashing argument names) may be rejected, but if accepted must build+vet; class K = probes of the known findings D12 D15 D21 D24 (reported as known, never as disagreements); the shapes of the repaired findings D9 D13 D14 D23 D26 D27 are ordinary class B (D11, D14: class A) injections and corpus entries; non-trivial = every program; distinct by (seed, options)"
 }
 
 func init() { modes["C06"] = runC06 }
